@@ -2431,7 +2431,7 @@ LEAN_EXTRA_TARGETS = ("QGen.C17",)
 PARTIAL = [
     {"theorem": "unknown_state_name_rejected_partial", "missing": "state catalogue only (generated validator + guards); POVM / gate / m-process / ensemble / Lindbladian generators have no validator to translate, and for POVMs and m-processes the clause is false on the source (D17d-f) - covered by the oracle's out-of-catalogue and near-miss probes"},
     {"theorem": "psdCert_true_sound / unitaryCert_sound / trace1Cert_sound / povmSumCert_sound / tpCert_zero / hsUnitaryCert_sound", "missing": "soundness of the EXECUTED deciders is proved (CRat -> C embedding); the per-entry certification itself is executed by the compiled driver, not kernel-checked"},
-    {"theorem": "gate_of_unitary_* / state_of_pure_vector_physical / povm_of_onb_physical / kraus_* / mixture_physical / projective_kraus_complete / gate_of_hamiltonian_physical", "missing": "generic constructions on Mathlib matrices (all dimensions); tied to executed definitions only for gates (gate_superoperator_acts / _choi_psd, hsOfUnitary_eq_toHerm, hsOfUnitary_row0); that each catalogue entry IS such a construction with the textbook matrix, and the 'alternative descriptions agree' clauses, are checked per entry by the oracle on the implementation, not proved"},
+    {"theorem": "gate_of_unitary_* / state_of_pure_vector_physical / povm_of_onb_physical / kraus_* / mixture_physical / projective_kraus_complete / gate_of_hamiltonian_physical", "missing": "generic constructions on Mathlib matrices (all dimensions); tied to executed definitions for gates (gate_superoperator_acts / _choi_psd, hsOfUnitary_eq_toHerm, hsOfUnitary_row0), states (density_coef_roundtrip, pureDensity_eq), POVMs (povmOfVectors_spec), m-processes (krausSum_action, hsOfKraus_row0) and Hamiltonian Lindbladians (lindOfHamiltonian_spec); that each catalogue entry IS such a construction with the textbook matrix, and the 'alternative descriptions agree' clauses, are checked per entry by the oracle on the implementation, not proved"},
 ]
 
 
@@ -2680,6 +2680,35 @@ def correspondence(ctx):
             forms.append(("hsofkraus", f"{system}/{nm}/{x}", np.asarray(dense(hs_), dtype=float),
                           drv.ask("hsofkraus", d_, bs_, _pc(np.array([np.asarray(k, dtype=complex) for k in ks]))), d_))
             ctx.count(f"descriptions mprocess {system}")
+    # POVM pure-state vectors -> matrices -> coefficient vectors (rank-1 names of the 1-qubit / 1-qutrit systems) and
+    # Hamiltonian -> effective-Lindbladian HS matrix (every small-catalogue gate name x id order), on the model's definitions
+    rank1 = set(PT.get_povm_names_rank1())
+    for system in ("1qubit", "1qutrit"):
+        c = csys(system)
+        Bq = [np.asarray(dense(b), dtype=complex) for b in c.basis()]
+        d_ = Bq[0].shape[0]
+        bs_ = qlist(x for b in Bq for z in b.flatten() for x in (z.real, z.imag))
+        for nm in dict(povm_catalogue())[system]:
+            if nm not in rank1:
+                continue
+            vs = [np.asarray(v, dtype=complex).flatten() for v in PT.generate_povm_pure_state_vectors_from_name(nm)]
+            ms = [np.asarray(dense(m), dtype=complex) for m in PT.generate_povm_matrices_from_name(nm)]
+            cv = [np.asarray(v, dtype=float) for v in PT.generate_povm_vectors_from_name(nm, c.basis())]
+            forms.append(("povmforms", f"{system}/{nm}", (ms, cv), drv.ask("povmforms", d_, bs_, len(vs), _pc(np.array(vs))), d_))
+            ctx.count(f"descriptions povm {system}")
+    for system, nm, ids in gate_catalogue_small():
+        if system not in ("1qubit", "2qubit", "1qutrit"):
+            continue
+        c = csys(system)
+        dims_ = list(SYSTEMS[system][2])
+        Bq = [np.asarray(dense(b), dtype=complex) for b in c.basis()]
+        d_ = Bq[0].shape[0]
+        bs_ = qlist(x for b in Bq for z in b.flatten() for x in (z.real, z.imag))
+        idl = None if ids is None else list(ids)
+        Hm = np.asarray(dense(LT.generate_hamiltonian_mat_from_gate_name(nm, dims_, idl if idl is not None else [])), dtype=complex)
+        Lm = np.asarray(dense(LT.generate_effective_lindbladian_mat_from_gate_name(nm, dims_, idl if idl is not None else [])), dtype=float)
+        forms.append(("lindofh", f"{system}/{nm}/{ids}", Lm, drv.ask("lindofh", d_, bs_, _pc(Hm)), d_))
+        ctx.count(f"descriptions lindbladian {system}")
     # generated name tables (QGen/C17.lean, translated from the source on this run) against the real functions
     tabs = []
     mods = {"state_typical.py": ST, "povm_typical.py": PT, "gate_typical.py": GT, "mprocess_typical.py": MT,
@@ -2707,6 +2736,12 @@ def correspondence(ctx):
         if okf and op == "stateforms":
             rho_m, vec_m, rho2_m = _cm(t[1], (d_, d_)), _cm(t[2], (d_ * d_,)), _cm(t[3], (d_, d_))
             okf = np.abs(rho_m - impl[0]).max() < 1e-9 and np.abs(vec_m - impl[1]).max() < 1e-9 and np.abs(rho2_m - impl[0]).max() < 1e-9
+        elif okf and op == "povmforms":
+            ms, cv = impl
+            okf = len(t) == 1 + 2 * len(ms)
+            for x in range(len(ms) if okf else 0):
+                okf = okf and np.abs(_cm(t[1 + 2 * x], (d_, d_)) - ms[x]).max() < 1e-9 \
+                    and np.abs(_cm(t[2 + 2 * x], (d_ * d_,)) - cv[x]).max() < 1e-9
         elif okf:
             hs_m = _cm(t[1], (d_ * d_, d_ * d_))
             okf = np.abs(hs_m - impl).max() < 1e-9
